@@ -74,6 +74,9 @@ func (c01) Exec(ctx *core.Ctx, cs *core.Case) {
 	} else {
 		ctx.Count("model_rejects")
 	}
+	if len(input)%8 == 3 {
+		interfere(ctx, input)
+	}
 	entries := 1
 	if hasBase {
 		entries = 2
